@@ -152,6 +152,37 @@ func (v *traceView) groupRuns(g int) int {
 	return n / 2
 }
 
+// spuriousTimeoutIn: in a plan with short action timeouts (overrun cases) a call that was NOT scripted to overrun
+// nevertheless saw its context cancelled: the machine delayed it past its 3-6 ms timeout. The engine then rightly
+// abandons it while the scripted plugin, which does not watch its context on that path, is still "in flight" for the
+// tracer. Such a run says nothing about plugin-level overlap and the in-flight monitors do not judge it.
+func spuriousTimeoutIn(ps *PlanSpec, v *traceView) bool {
+	scripts := map[string][]Outcome{}
+	short := false
+	ps.eachAction(func(a *ActSpec, _ bool) {
+		scripts[a.Tag] = a.Script
+		if a.TimeoutMs > 0 {
+			short = true
+		}
+	})
+	if !short {
+		return false
+	}
+	for _, e := range v.tr {
+		if e.L == "exit" && e.CtxDone {
+			sc := scripts[e.Tag]
+			k := e.Call
+			if k >= len(sc) {
+				k = len(sc) - 1
+			}
+			if k < 0 || !sc[k].Overrun {
+				return true
+			}
+		}
+	}
+	return false
+}
+
 type monitorSet struct {
 	r    *Result
 	spec *PlanSpec
@@ -171,6 +202,11 @@ func runMonitors(r *Result, ix *index, res *runResult, desc any) {
 	if res.TimedOut || res.Final == nil {
 		m.fail("C04.terminates", map[string]any{"timedOut": res.TimedOut}, "Wait did not return a plan within the watchdog: "+res.WaitErr, tailEvents(res.Trace, 12))
 		return
+	}
+
+	disturbed := spuriousTimeoutIn(ps, v)
+	if disturbed {
+		r.count("runs not judged for plugin-level overlap (spurious timeout on a loaded machine)")
 	}
 
 	// ---------------- C01.b / C05 gating inside sequences
@@ -197,7 +233,7 @@ func runMonitors(r *Result, ix *index, res *runResult, desc any) {
 			cur := 0
 			for _, e := range evs {
 				if e.enter {
-					if inflight > 0 {
+					if inflight > 0 && !disturbed {
 						m.fail("C01.b_one_action_in_flight", map[string]any{}, "two plugin calls of one sequence in flight at once", nil)
 					}
 					inflight++
@@ -244,7 +280,7 @@ func runMonitors(r *Result, ix *index, res *runResult, desc any) {
 	}
 	for i := 0; i < len(spans); i++ {
 		for j := i + 1; j < len(spans); j++ {
-			if spans[i].first != 0 && spans[j].first != 0 && spans[j].first < spans[i].last {
+			if spans[i].first != 0 && spans[j].first != 0 && spans[j].first < spans[i].last && !disturbed {
 				m.fail("C01.a_blocks_in_order", map[string]any{}, "plugin activity of a later block overlaps or precedes that of an earlier block", map[string]any{"i": i, "j": j})
 			}
 			if spans[i].first == 0 && spans[j].first != 0 && v.status(ix.Blocks[i]) != "completed" {
@@ -451,7 +487,7 @@ func runMonitors(r *Result, ix *index, res *runResult, desc any) {
 				max = c
 			}
 		}
-		if max > conc {
+		if max > conc && !disturbed {
 			m.fail("C02.concurrency_bound", map[string]any{"conc": conc, "observed": max}, fmt.Sprintf("%d sequences of one block had an action in flight at once, Concurrency is %d", max, conc), nil)
 		}
 		// sequences Running (between their Running write and their terminal write) also obey the bound
